@@ -50,6 +50,8 @@ def run_case(ctx, i):
         globals()['build_' + builder](ctx, rng, i)
     except _Skip:
         ctx.count('skipped')
+    finally:
+        ctx.__dict__.pop('violation', None)  # (a case may tag its verdicts by wrapping the sink)
 
 
 def describe(kind, L, extra):
@@ -734,6 +736,23 @@ def build_infinite(ctx, rng, i):
     case = describe(kind, L, {'builder': 'infinite', 'chi': chi, 'canonical_form_infinite': which})
     try:
         psi = MPS.from_Bflat(sites, Bs, bc='infinite', form=None)
+        if L >= 2 and rng.random() < 0.35:
+            # tensors of different dtypes on different sites: a real state in which one site got a complex tensor through set_B
+            j_c = int(rng.integers(L))
+            Bs = [np.real(B) + (1j * rng.standard_normal(B.shape) if k_ == j_c else 0) for k_, B in enumerate(Bs)]
+            psi_c = MPS.from_Bflat(sites, Bs, bc='infinite', form=None)
+            psi = MPS.from_Bflat(sites, [np.real(B) for B in Bs], bc='infinite', form=None)
+            psi.set_B(j_c, psi_c.get_B(j_c, form=None), form=None)
+            case['complex_tensor_only_on_site'] = j_c
+            ctx.count('infinite.mixed_dtypes')
+        if 'complex_tensor_only_on_site' in case:
+            # (recorded finding: see known_findings.json; all verdicts of such a case carry the mechanism in their key)
+            _orig_violation = ctx.violation
+
+            def _tagged(key, what, case_=None, **kw):
+                return _orig_violation(key + ':tensors-of-different-dtypes', what, case_, **kw)
+
+            ctx.violation = _tagged
         if which == 1:
             psi.canonical_form_infinite1()
         else:
@@ -790,6 +809,8 @@ def build_infinite(ctx, rng, i):
         ctx.violation('canonical_form_infinite%d:local-density-matrix-differs' % which,
                       '|rho_mps - rho_exact| = %g' % np.linalg.norm(rho_t - rho), case)
         return
+    if 'complex_tensor_only_on_site' in case:
+        return  # (only the canonicalisation itself is judged for tensors of different dtypes: see the recorded finding)
     # form conversions and get_theta across the unit-cell boundary keep window density matrices
     n = int(rng.integers(1, 4))
     i0 = int(rng.integers(0, 2 * L))
